@@ -16,7 +16,7 @@ fi
 # build output: Coq objects, generated sources, extracted OCaml, checker and harness binaries
 rsync -a --include='*/' --include='*.vo' --include='*.vos' --include='*.vok' --include='*.glob' \
       --include='.*.aux' --include='.lia.cache' --exclude='*' coq/ "$W/coq/"
-cp -a coq/gen/Extracted.v coq/gen/Translated.v coq/gen/Translated2.v "$W/coq/gen/" 2>/dev/null || true
+cp -a coq/gen/Extracted.v coq/gen/Translated.v coq/gen/Translated2.v coq/gen/Translated3.v "$W/coq/gen/" 2>/dev/null || true
 for f in Makefile Makefile.conf .Makefile.d _CoqProject; do [ -e coq/$f ] && cp -a coq/$f "$W/coq/$f"; done
 mkdir -p "$W/.work" "$W/ocaml"
 [ -d ocaml/gen ] && cp -a ocaml/gen "$W/ocaml/"
